@@ -572,8 +572,144 @@ impl Space for PatchSpace {
     }
 }
 
+/// Stacks of patches: the versions v0 (full file) -> v1 -> ... -> vk, one archive per step with rising
+/// priority; every step is a COPY patch, a BSD0 patch (one add-everything control triple) or a full
+/// replacement file. Variants: well-formed; one patch made against the wrong predecessor (its declared
+/// before-digest does not match what it is applied to). Oracle: Ok(bytes) must be the version the topmost
+/// patch declares (bit-identical to vk for a well-formed stack); an error is a refusal; never other bytes.
+struct PatchSeq {
+    cases: Vec<(Vec<usize>, Vec<u8>, Option<usize>)>, // version indices v0..vk, step kinds (0 copy, 1 bsd0, 2 full), wrong-base step
+    dir: Scratch,
+}
+fn seq_versions() -> Vec<Vec<u8>> {
+    vec![gen::content("period251", 300, 512, 9), b"N".to_vec(), gen::content("period2", 40, 512, 2), vec![], (0..16u8).collect()]
+}
+impl PatchSeq {
+    fn new(tier: Tier) -> PatchSeq {
+        let nv = seq_versions().len();
+        let mut cases = vec![];
+        let depth = tier.pick(2usize, 3);
+        // every sequence of distinct-neighbour versions of length 2..=depth+1, every kind vector whose last step is a patch
+        fn rec(cur: &mut Vec<usize>, nv: usize, maxlen: usize, out: &mut Vec<Vec<usize>>) {
+            if cur.len() >= 3 {
+                out.push(cur.clone());
+            }
+            if cur.len() == maxlen {
+                return;
+            }
+            for v in 0..nv {
+                if cur.last() != Some(&v) {
+                    cur.push(v);
+                    rec(cur, nv, maxlen, out);
+                    cur.pop();
+                }
+            }
+        }
+        let mut seqs = vec![];
+        rec(&mut vec![], nv, depth + 1, &mut seqs);
+        for vs in seqs {
+            let k = vs.len() - 1;
+            for code in 0..3u32.pow(k as u32) {
+                let kinds: Vec<u8> = (0..k).map(|j| ((code / 3u32.pow(j as u32)) % 3) as u8).collect();
+                if *kinds.last().unwrap() == 2 || kinds.iter().all(|&x| x == 2) {
+                    continue; // the winning entry must be a patch
+                }
+                cases.push((vs.clone(), kinds.clone(), None));
+                for w in 0..k {
+                    if kinds[w] != 2 {
+                        cases.push((vs.clone(), kinds.clone(), Some(w)));
+                    }
+                }
+            }
+        }
+        PatchSeq { cases, dir: Scratch::new("c08q") }
+    }
+}
+impl Space for PatchSeq {
+    fn len(&self) -> u64 {
+        self.cases.len() as u64
+    }
+    fn describe(&self, i: u64) -> Value {
+        let c = &self.cases[i as usize];
+        json!({"patch_stack": format!("versions {:?}", c.0), "steps": c.1.iter().map(|k| ["copy", "bsd0", "full file"][*k as usize]).collect::<Vec<_>>(), "patch_made_against_wrong_predecessor": c.2})
+    }
+    fn run(&self, i: u64) -> CaseResult {
+        let c = &self.cases[i as usize];
+        let vers = seq_versions();
+        let mut r = CaseResult::new();
+        r.nontrivial = true;
+        r.key = format!("seq{i}");
+        let name = "patched\\file.bin";
+        let mut paths = vec![];
+        let p0 = self.dir.path(&format!("s{i}-0.mpq"));
+        std::fs::write(&p0, mpqref::write(&[WFile { method: mpqref::M_ZLIB, ..WFile::plain(name, &vers[c.0[0]]) }], &WOptions::default()).unwrap()).unwrap();
+        paths.push(p0);
+        let mut declared_top = [0u8; 16];
+        for (j, &kind) in c.1.iter().enumerate() {
+            let prev = &vers[c.0[j]];
+            let next = &vers[c.0[j + 1]];
+            // a patch made against the wrong predecessor: its before-side is another version
+            let made_against: &Vec<u8> = if c.2 == Some(j) { &vers[(c.0[j] + 1) % vers.len()] } else { prev };
+            let pj = self.dir.path(&format!("s{i}-{}.mpq", j + 1));
+            let wf = match kind {
+                2 => WFile { method: mpqref::M_ZLIB, ..WFile::plain(name, next) },
+                _ => {
+                    let ptch = if kind == 0 {
+                        ptch::copy_patch(made_against, next)
+                    } else {
+                        // one control triple: add nothing from the old file, take everything from the extra block
+                        let prog = vec![Ctrl { add: 0, mov: next.len() as u32, seek: 0 }];
+                        ptch::bsd0_patch(made_against, next, &prog, &[], next)
+                    };
+                    if j + 1 == c.1.len() && ptch.len() >= 56 {
+                        declared_top.copy_from_slice(&ptch[40..56]);
+                    }
+                    let mut pf = WFile::plain(name, &ptch::patch_entry(&ptch));
+                    pf.raw_flags = mpqref::F_PATCH | mpqref::F_SINGLE;
+                    pf
+                }
+            };
+            std::fs::write(&pj, mpqref::write(&[wf], &WOptions::default()).unwrap()).unwrap();
+            paths.push(pj);
+        }
+        let res = guarded(|| -> Result<Vec<u8>, String> {
+            let mut chain = PatchChain::new();
+            for (j, p) in paths.iter().enumerate() {
+                chain.add_archive(p, 10 * j as i32).map_err(|e| format!("add {j}: {e}"))?;
+            }
+            chain.read_file(name).map_err(|e| e.to_string())
+        });
+        let want = &vers[*c.0.last().unwrap()];
+        match res {
+            Err((file, line, msg)) => r.viol(panic_class(&file, &msg), format!("panic at {file}:{line}: {msg}")),
+            Ok(Ok(b)) => {
+                r.outcome = "ok".into();
+                if ptch::md5(&b) != declared_top {
+                    r.viol("patch stack: chain returns bytes that do not match the digest the winning patch declares", format!("{} bytes, wanted version of {} bytes", b.len(), want.len()));
+                } else if &b != want {
+                    r.viol("patch stack: chain returns bytes other than the newest version", format!("{} bytes, wanted {}", b.len(), want.len()));
+                }
+            }
+            Ok(Err(_)) => {
+                r.outcome = "err".into();
+                if c.2.is_none() {
+                    r.count("well_formed_stack_refused", 1);
+                    r.err_return = true;
+                } else {
+                    r.count("wrong_predecessor_refused", 1);
+                }
+            }
+        }
+        for p in paths {
+            let _ = std::fs::remove_file(p);
+        }
+        r
+    }
+}
+
 fn build(name: &str, arg: &str, tier: Tier) -> Box<dyn Space> {
     match name {
+        "patchseq" => Box::new(PatchSeq::new(tier)),
         "chain" => Box::new(ChainSpace::load(arg, tier)),
         "patch" => Box::new(PatchSpace { cases: patch_cases(tier), dir: Scratch::new("c08p") }),
         _ => panic!("space {name}"),
@@ -614,13 +750,14 @@ fn main() {
         c.agg.complete = false;
     }
     c.run_space("patch", "");
+    c.run_space("patchseq", "");
     c.agg.samples.extend(samples);
     let transitions = c.agg.counters.get("transitions").copied().unwrap_or(0);
     c.extra_cov.insert("states".into(), json!(seen.len()));
     c.extra_cov.insert("traces_validated_against_impl".into(), json!(transitions));
     c.extra_cov.insert("state_space_closed".into(), json!(closed));
     c.extra_cov.insert("max_depth".into(), json!(depth));
-    c.rule = "chain: state = ordered list of (archive, priority, original insertion rank) over 4 archives x priorities {-5,0,7}; every enabled event (add, remove incl. absent, set_priority, clear, add_archives_parallel pairs, from_archives_parallel constructors) from every reachable state is executed on a real PatchChain rebuilt by replaying a history, then every pool name is looked up (read_file, contains_file, find_file_archive, list) against the model; explored to closure. patch: every COPY/BSD0 patch from the independent encoder (all control programs of <=2 triples over boundary values) x base files, well-formed and with every header field / payload byte altered, read through a real base+patch chain. Non-trivial = every executed transition / patch; distinct by (state,event) or patch label.".into();
+    c.rule = "chain: state = ordered list of (archive, priority, original insertion rank) over 4 archives x priorities {-5,0,7}; every enabled event (add, remove incl. absent, set_priority, clear, add_archives_parallel pairs, from_archives_parallel constructors) from every reachable state is executed on a real PatchChain rebuilt by replaying a history, then every pool name is looked up (read_file, contains_file, find_file_archive, list) against the model; explored to closure. patch: every COPY/BSD0 patch from the independent encoder (all control programs of <=2 triples over boundary values) x base files, well-formed and with every header field / payload byte altered, read through a real base+patch chain. patchseq: every stack of 2 (thorough: up to 3) steps over 5 file versions, each step a COPY patch, a BSD0 patch or a full replacement file (winning entry always a patch), well-formed and with each patch in turn made against the wrong predecessor; Ok(bytes) must carry the digest the winning patch declares and, for a well-formed stack, be the newest version. Non-trivial = every executed transition / patch; distinct by (state,event) or patch label.".into();
     c.assume("ties: earliest added wins; when set_priority moves an archive onto an existing priority both readings (original insertion order, library list order) are accepted");
     c.assume("archives are built by the real ArchiveBuilder (C01); patch archives by the independent mpqref writer and ptch encoder");
     c.assume("a patch read returning Err is always acceptable; Ok must match the declared digest (and the reference application for well-formed patches)");
